@@ -50,7 +50,7 @@ def gen_case(ctx, i):
     n_nodes = int(r.integers(2, 5))
     frames = []
     used = set()
-    for _k in range(int(r.integers(1, 5))):
+    for _k in range(int(r.integers(1, 5)) if i % 6 else 6):  # every sixth label set is large: centred-instance sets reach 11-18 samples (chunk files sample_10..)
         v = int(r.integers(0, 2)) if two else 0
         f = int(r.integers(0, 3))  # frame indices may coincide across videos (consecutive labelled frames sharing an index)
         if (v, f) in used:
@@ -66,7 +66,12 @@ def gen_case(ctx, i):
                 m[0] = False
             p[m] = np.nan
             animals.append(p)
-        frames.append({"video": v, "frame_idx": f, "animals": animals})
+        flags = [False] * len(animals)
+        if model != "single" and r.random() < 0.3:  # a predicted instance listed among the user instances (ignored under user_instances_only)
+            pos_ = int(r.integers(0, len(animals) + 1))
+            animals.insert(pos_, np.round(r.uniform(14, 50, (n_nodes, 2)) * 4) / 4)
+            flags.insert(pos_, True)
+        frames.append({"video": v, "frame_idx": f, "animals": animals, "pred": flags})
     explicit = bool(r.random() < 0.4) or two
     return {"i": i, "family": fam, "model": model, "scale": scale, "is_rgb": bool(r.random() < 0.5), "color_video": color, "n_nodes": n_nodes, "frames": frames,
             "max_stride": int(r.choice([8, 16, 32])), "stride": int(r.choice([1, 2, 4])), "paf_stride": int(r.choice([2, 4, 8])), "sigma": float(r.choice([1.0, 1.5, 2.5])),
@@ -137,7 +142,10 @@ def check_pipeline(ctx, case):
     vids = [_S["vids"][vn + "1"], _S["vids"][vn + "2"]]
     edges = [(k, k + 1) for k in range(n - 1)]
     sk = synth.skeleton(n, edges=edges)
-    labels = synth.labels_from_poses([(vids[fr["video"]], fr["frame_idx"], [arr(a, n) for a in fr["animals"]]) for fr in case["frames"]], sk)
+    def fresh_labels():  # every framework gets its own Labels object (some code paths filter lf.instances in place)
+        return synth.labels_from_poses([(vids[fr["video"]], fr["frame_idx"], [arr(a, n) for a in fr["animals"]], list(fr.get("pred") or [False] * len(fr["animals"]))) for fr in case["frames"]], sk)
+
+    labels = fresh_labels()
     data_cfg = OmegaConf.create({"user_instances_only": True, "preprocessing": {"is_rgb": case["is_rgb"], "max_height": case["explicit_max"][0] if case["explicit_max"] else None,
                                                                                  "max_width": case["explicit_max"][1] if case["explicit_max"] else None, "scale": case["scale"]},
                                  "augmentation_config": None})
@@ -151,8 +159,10 @@ def check_pipeline(ctx, case):
     common = dict(labels=labels, data_config=data_cfg, max_stride=case["max_stride"], scale=case["scale"], apply_aug=False, max_hw=max_hw)
     image_key = "instance_image" if model == "centered" else "image"
     try:
-        def build(np_chunks):
-            kw = dict(common, np_chunks=np_chunks, np_chunks_path=chunks if np_chunks else None)
+        def build(np_chunks, reuse=False):
+            kw = dict(common, labels=fresh_labels(), np_chunks=np_chunks, np_chunks_path=chunks if np_chunks else None)
+            if reuse:
+                kw["use_existing_chunks"] = True
             if model == "single":
                 return cd.SingleInstanceDataset(confmap_head_config=head, **kw)
             if model == "centroid":
@@ -164,6 +174,7 @@ def check_pipeline(ctx, case):
         mem = build(False)
         npz = build(True)
         ctx.count("datasets_built", 2)
+        labels = fresh_labels()  # for the chunk functions
         # chunk functions + streaming __getitem__
         max_inst = get_max_instances(labels)
         chunk_dicts = []
@@ -202,6 +213,13 @@ def check_pipeline(ctx, case):
                     ctx.count("samples_compared")
                     compare(ctx, small, tag, "torch_dataset_np_chunks", a, b, idx, {image_key})
                     compare(ctx, small, tag, "chunks+streaming", a, c, idx, {image_key})
+            # a dataset re-opened over the chunk folder the npz dataset wrote (use_existing_chunks) is the same framework read again
+            npz_re = build(True, reuse=True)
+            ctx.count("reopened_npz_datasets")
+            if len(npz_re) != len(npz):
+                ctx.violation("sample-count", f"{model}: re-opened npz dataset has {len(npz_re)} samples, the original {len(npz)}", small)
+            for idx in range(min(len(mem), len(npz_re))):
+                compare(ctx, small, "torch_dataset", "torch_dataset_np_chunks (re-opened, use_existing_chunks)", mem[idx], npz_re[idx], idx, {image_key})
         finally:
             ld.StreamingDataset.__getitem__ = orig_get
         if case.get("litdata"):
